@@ -94,6 +94,8 @@ def main():
             continue
         mine = [o for o in r.obligations if core.select(u, pid, o)]
         if not mine:
+            if u.props.get(pid) == "tag":
+                continue   # this unit contributes to pid only through explicitly tagged obligations, and has none
             undecided.append((u.name, "vacuity guard: no obligation of this unit is selected for %s" % pid))
             continue
         functions += u.functions
